@@ -36,7 +36,7 @@ func failNow(t *testing.T, prop string, c Case, v *Violation) {
 // ---------------------------------------------------------------------------
 // C16: whole-collection enumerations at every size
 
-const c16Rule = "exhaustive sizes: every n in 0..130 and in the neighbourhoods of k*1024 for k = 1..10 and 12 (1020..1030, 2044..2052, 3068..3076, 4095..4100, 5119..5122, ..., 10239..10243, 12289..12290), memory-only, flushed+evicted, re-opened, and re-opened with the enumeration as the very first walk of the tree, Len, VisitItemsAscendBlockEx (nil mangler, reverse, RandBm, seeded shuffle; with and without values) and VisitItemsRandom: no panic, Len == n, multiset of keys handed to the visitor == key set (each exactly once); for n == 0 the visitor is never called (nil-or-error not judged). Random part: rapid-generated key sets/priorities/comparators up to 300 items through the history interpreter. Non-trivial = n odd or n > 1024 with a partial last block; distinct by (n, cache state, API variant) resp. case hash."
+const c16Rule = "exhaustive sizes: every n in 0..130 and in the neighbourhoods of k*1024 for k = 1..10 and 12 (1020..1030, 2044..2052, 3068..3076, 4095..4100, 5119..5122, ..., 10239..10243, 12289..12290), memory-only, flushed+evicted, re-opened, and re-opened with the enumeration as the very first walk of the tree; additionally 21 sizes between 1 and 3073 as spine-shaped trees (priorities following or opposing the key order, depth = n); Len, VisitItemsAscendBlockEx (nil mangler, reverse, RandBm, seeded shuffle; with and without values) and VisitItemsRandom: no panic, Len == n, multiset of keys handed to the visitor == key set (each exactly once); for n == 0 the visitor is never called (nil-or-error not judged). Random part: rapid-generated key sets/priorities/comparators up to 300 items through the history interpreter. Non-trivial = n odd or n > 1024 with a partial last block; distinct by (n, cache state, API variant) resp. case hash."
 
 // sizeCase encodes one exhaustive C16 case as a replayable Case.
 func sizeCase(n int, mode int) Case {
@@ -77,7 +77,16 @@ func RunSizeCase(c Case) *Violation {
 		for i := 0; i < n; i++ {
 			k := fmt.Sprintf("k%06d", (i*7919)%1000003)
 			want[k] = true
-			if err := col.SetItem(&g.Item{Key: []byte(k), Val: []byte{byte(i)}, Priority: rand.Int31()}); err != nil {
+			prio := rand.Int31()
+			if len(c.Cfg.Extra) > 2 && c.Cfg.Extra[2] != 0 {
+				// degenerate shapes: priorities follow (1) or oppose (2) the key order, so
+				// the treap is one spine of depth n
+				prio = int32((i*7919)%1000003) + 1
+				if c.Cfg.Extra[2] == 2 {
+					prio = 1000004 - prio
+				}
+			}
+			if err := col.SetItem(&g.Item{Key: []byte(k), Val: []byte{byte(i)}, Priority: prio}); err != nil {
 				v = fail("set", "%v", err)
 				return
 			}
@@ -171,6 +180,9 @@ func c16Sizes() []int {
 	return ns
 }
 
+// spine-shaped collections (depth = n) of these sizes are enumerated too
+var c16SpineSizes = []int{1, 2, 3, 5, 31, 100, 127, 128, 129, 130, 255, 256, 257, 300, 513, 1023, 1024, 1025, 1100, 2049, 3073}
+
 func TestC16Sizes(t *testing.T) {
 	st := NewStats("C16", c16Rule, commonAssumptions)
 	st.Exhaustive = true
@@ -182,6 +194,25 @@ func TestC16Sizes(t *testing.T) {
 	}()
 	sh, nsh := shardOf()
 	idx := 0
+	for _, n := range c16SpineSizes {
+		for shape := 1; shape <= 2; shape++ {
+			for _, mode := range []int{0, 2, 3} {
+				idx++
+				if idx%nsh != sh {
+					continue
+				}
+				c := sizeCase(n, mode)
+				c.Cfg.Extra = append(c.Cfg.Extra, shape)
+				v, _ := guarded("C16", c, func() (*Violation, map[string]int) { return RunSizeCase(c), nil })
+				if v != nil {
+					failNow(t, "C16", c, v)
+				}
+				st.Note(c.Hash(), map[string]int{"size_case": 1, "size_spine": 1}, n > 1, func() string {
+					return fmt.Sprintf("n=%d mode=%d spine-shaped (shape %d: priorities follow/oppose the key order)", n, mode, shape)
+				})
+			}
+		}
+	}
 	for _, n := range c16Sizes() {
 		for mode := 0; mode < 4; mode++ {
 			if mode == 3 && n > 1100 && n%2 == 0 {
